@@ -37,6 +37,7 @@ type Violation struct {
 	Seed      uint64 `json:"seed"`
 	Run       int64  `json:"run"`
 	Replay    string `json:"replay,omitempty"`
+	Fatal     bool   `json:"fatal,omitempty"` // the worker could not go on (deadlock): not minimised in-process
 }
 
 // Result is what a worker hands back (JSON file Job.Out).
